@@ -87,17 +87,21 @@ func freePort() (int, error) {
 }
 
 type secInput struct {
-	Name    string `json:"name"`
-	Clients int    `json:"clients"`
-	Each    int    `json:"each"`
-	TCPOut  string `json:"tcpTraceOut"`
+	Name      string     `json:"name"`
+	Clients   int        `json:"clients"`
+	Each      int        `json:"each"`
+	TCPOut    string     `json:"tcpTraceOut"`
+	OptCheck  bool       `json:"optCheck"`
+	Sweep     int        `json:"sweep"`
+	Scripts   []scriptIn `json:"scripts"`
+	ScriptPar int        `json:"scriptPar"`
 }
 
 var exchMix = []string{"hit", "hit", "miss", "miss", "shared", "delay", "fallback", "silentTail", "panicTail",
-	"panicHead", "writeHandoff"}
+	"panicHead", "writeHandoff", "big", "huge", "huge", "hugeMiss"}
 
 type legStats struct {
-	sent, answered, silentOK, errs atomic.Int64
+	sent, answered, silentOK, errs, big atomic.Int64
 }
 
 // checkExchange evaluates one request/response transport exchange.
@@ -121,8 +125,12 @@ func checkExchange(res *vh.Result, leg string, in *secInput, q *query, body []by
 		return
 	}
 	st.answered.Add(1)
-	if why := checkReply(q, body); why != "" && why[:min(6, len(why))] != "rcode:" {
-		res.Violate(leg+"/content", fmt.Sprintf("[%s] %s: reply to id %d (%s %s): %s", in.Name, leg, q.id, q.kind, q.name, why), rep)
+	why := checkReply(q, body)
+	if why != "" && why[:min(6, len(why))] != "rcode:" {
+		res.Violate(leg+"/content", fmt.Sprintf("[%s] %s: reply to id %d (%s %s, %s): %s", in.Name, leg, q.id, q.kind, q.name, q.ep.kind(), why), rep)
+	}
+	if why == "" && q.sz != "small" && sizeClassOfLen(len(body)) == q.sz {
+		st.big.Add(1)
 	}
 }
 
@@ -188,7 +196,8 @@ func TestSecureTransports(t *testing.T) {
 		return &tls.Config{InsecureSkipVerify: true, NextProtos: alpn} //nolint:gosec // loopback test server, self-signed
 	}
 
-	nClients := 5*in.Clients + 1
+	optCheck.Store(in.OptCheck)
+	nClients := 5*in.Clients + 4
 	idSpan := 65536 / nClients
 	var idBlock atomic.Int64
 	newAlloc := func() (int, func() (uint16, bool)) {
@@ -206,7 +215,32 @@ func TestSecureTransports(t *testing.T) {
 	var wg sync.WaitGroup
 	stats := map[string]*legStats{"dot": {}, "doh": {}, "doh3": {}, "doq": {}}
 	var tc tcpCounters
-	eng := &engInput{Name: in.Name, TCPFrames: 8}
+	eng := &engInput{Name: in.Name, TCPFrames: 8, Sweep: in.Sweep, Scripts: in.Scripts, ScriptPar: in.ScriptPar}
+
+	// the large / huge TXT answers, primed over plain TCP one exchange at a time
+	prng := rand.New(rand.NewSource(seed*43 + 1))
+	pblk, palloc := newAlloc()
+	if why := primeBig(eng, res, prng, "tcp", func() (net.Conn, error) { return net.DialTimeout("tcp", rg.tcp, 3*time.Second) },
+		pblk, func() (uint16, bool) { id, _ := palloc(); return id, true }, &tc); why != "" {
+		res.Skip("all: priming the large/huge answers: %s", why)
+	}
+	dialTLS := func() (net.Conn, error) {
+		d := &net.Dialer{Timeout: 3 * time.Second}
+		return tls.DialWithDialer(d, "tcp", fmt.Sprintf("127.0.0.1:%d", pTLS), tlsConf())
+	}
+	wrap := func(a func() (uint16, bool), span int) func() (uint16, bool) {
+		n := 0
+		base, _ := a()
+		return func() (uint16, bool) { n++; return base + uint16((n-1)%(span-1)), true }
+	}
+	if up["tls"] && in.Sweep > 0 {
+		blk, alloc := newAlloc()
+		sweepStream(eng, res, rand.New(rand.NewSource(seed*43+3)), "dot", dialTLS, blk, wrap(alloc, idSpan), &tc)
+	}
+	if up["tls"] && len(in.Scripts) > 0 {
+		blk, alloc := newAlloc()
+		playScripts(eng, res, seed, "dot", dialTLS, blk, wrap(alloc, idSpan), &tc)
+	}
 
 	// ---- DoT: the stream driver over TLS ------------------------------------
 	if up["tls"] {
@@ -245,7 +279,7 @@ func TestSecureTransports(t *testing.T) {
 					if !ok {
 						break
 					}
-					q := buildQuery(rng, exchMix[rng.Intn(len(exchMix))], 2000+blk, k, k/4, id)
+					q := buildQueryOpt(rng, exchMix[rng.Intn(len(exchMix))], 2000+blk, k, k/4, id, true, "")
 					do := func(q *query) {
 						defer inner.Done()
 						req, _ := http.NewRequest(http.MethodPost, url, bytes.NewReader(q.wire))
@@ -309,7 +343,7 @@ func TestSecureTransports(t *testing.T) {
 						// net/http): a panic ahead of the recovery middleware would take the test process down
 						kind = "panicTail"
 					}
-					q := buildQuery(rng, kind, 3000+blk, k, k/4, 0)
+					q := buildQueryOpt(rng, kind, 3000+blk, k, k/4, 0, true, "")
 					inner.Add(1)
 					do := func(q *query) {
 						defer inner.Done()
@@ -369,11 +403,17 @@ func TestSecureTransports(t *testing.T) {
 		res.Count(leg+"_answered", int(st.answered.Load()))
 		res.Count(leg+"_silent_ok", int(st.silentOK.Load()))
 		res.Count(leg+"_errors", int(st.errs.Load()))
+		res.Count(leg+"_big_replies_ok", int(st.big.Load()))
 	}
 	res.Count("dot_conns", int(tc.conns.Load()))
 	res.Count("dot_frames", int(tc.frames.Load()))
 	res.Count("dot_expected", int(tc.expected.Load()))
 	res.Count("dot_answered", int(tc.answered.Load()))
+	res.Count("stream_big_replies_ok", int(tc.bigOK.Load()))
+	if n := bareOPT.Load(); n > 0 {
+		res.Count("opt_in_reply_to_optless_query", int(n))
+		res.DriftNote("%d replies carry a bare OPT although the query had none, e.g. %v", n, bareOPTExample.Load())
+	}
 	if in.TCPOut != "" {
 		f, err := os.OpenFile(in.TCPOut, os.O_CREATE|os.O_WRONLY|os.O_APPEND, 0o644)
 		if err == nil {
